@@ -4,11 +4,10 @@ import SeaQ.Lemmas.PrattBridge
 #print axioms SeaQ.Props.C05.opNames_agree
 #print axioms SeaQ.Props.C05.sqlite_table_ok
 #print axioms SeaQ.Props.C05.postgres_table_ok
-#print axioms SeaQ.Props.C05.mysql_table_ok_guarded
-#print axioms SeaQ.Props.C05.mysql_table_not_ok
+#print axioms SeaQ.Props.C05.mysql_table_ok
 #print axioms SeaQ.Props.C05.sqlite_roundtrip
 #print axioms SeaQ.Props.C05.postgres_roundtrip
-#print axioms SeaQ.Props.C05.mysql_roundtrip_partial
+#print axioms SeaQ.Props.C05.mysql_roundtrip
 #print axioms SeaQ.Pratt.main_atom
 #print axioms SeaQ.Pratt.main_un
 #print axioms SeaQ.Pratt.main_bin_reg
